@@ -612,6 +612,9 @@ def c02_r5_free_leaves_caches(ctx):
         can = ctx.sites(f, PCF + '::cancel_pending_write', exact=1)
         ctx.must_pass(f, inv, exits='any', what='free_helper always invalidates the read cache entry')
         ctx.must_pass(f, can, exits='any', what='free_helper always cancels the pending write')
+        # ... and both happen before the allocator lock is released: otherwise another thread can be
+        # handed the page and have its fresh buffer cancelled / its cache entry dropped
+        ctx.held(f, inv + can, 'self.state', 'cache entries of the freed page are dropped while the allocator (TM.state) lock is still held')
         fr = ctx.sites(f, 'BuddyAllocator::free', exact=1)
         ctx.must_pass(f, fr, exits='any')
         for p in inv + can:
@@ -1167,6 +1170,16 @@ def c05_r1_abort_path(ctx):
         cu = ctx.sites(f, TM + '::claim_unpersisted', exact=1)
         ins = ctx.sites(f, 'UncommittedPages::insert', exact=1)
         ctx.guarded(f, ins, [true_of(TM + '::claim_unpersisted')], 'adopted only when claimed from the unpersisted set')
+    f = ctx.fn(PA + '::free')
+    if f is not None:
+        rm_ = ctx.sites(f, 'UncommittedPages::remove', exact=1)
+        fr_ = ctx.sites(f, TM + '::free', exact=1)
+        ctx.order(f, rm_, fr_, 'a page leaves the transaction\'s uncommitted set before it is handed back to the allocator (another thread may be given it at once)')
+    f = ctx.fn(PA + '::free_if_uncommitted')
+    if f is not None:
+        rm_ = ctx.sites(f, 'UncommittedPages::remove', exact=1)
+        fr_ = ctx.sites(f, TM + '::free', exact=1)
+        ctx.order(f, rm_, fr_)
     ctx.callers_eq('UncommittedPages::insert', {PA + '::allocate', PA + '::allocate_lowest', PA + '::adopt_unpersisted'})
     ctx.callers_eq('UncommittedPages::take_all', {PA + '::take_allocated_since_commit'})
     ctx.callers_eq(PA + '::take_allocated_since_commit', {PA + '::rollback_all', WT + '::durable_commit', WT + '::non_durable_commit', WT + '::process_data_freed_pages_after_commit'})
@@ -1664,6 +1677,19 @@ def c20_r6_read_only(ctx):
                     pts.append(Point(f, i, j, 'DatabaseError::RepairAborted', s_[3]))
         ctx.check(len(pts) == 1, 'floor|RepairAborted', 'TM::new constructs RepairAborted once', f, f.line)
         ctx.guarded(f, pts, [Guard(place='read_only', vals={'true'})])
+        # with read_only == true, nothing after the recovery test can write, sync or resize the storage
+        # (the read-only refusal and the recovery rewrite must be keyed on the same condition; repeated
+        # tests of the immutable local `needs_recovery` are correlated by the reachability engine)
+        rr = ctx.sites(f, 'UnrepairedDatabaseHeader::recovery_required', exact=1)
+        e_rw = core.guard_edges(f, [Guard(place='read_only', vals={'false'})])
+        ctx.check(bool(e_rw), 'guard-missing|%s|read_only' % f.path, 'TM::new tests read_only', f, f.line)
+        if rr and e_rw:
+            r = core.reach(f, start=(rr[0].bb, rr[0].idx), cut_edges=e_rw)
+            bad = [c for c in f.calls if c.matches((PCF + '::write', PCF + '::flush', PCF + '::resize', PCF + '::sync_file')) and c.bb in r['term']]
+            ctx._ob(not bad, ctx.sample('guard', f, rr[0].line, 'read_only open: no storage write/flush/resize reachable after the recovery test'))
+            if bad:
+                ctx.violate('read-only-writes|%s|%s' % (f.path, core.strip_generics(bad[0].callee)), 'a read-only open can reach `%s` after the recovery test: a read-only database would write to / sync its storage' % bad[0].callee, f, bad[0].line,
+                            core.path_lines(f, core.find_path(f, bad[0].bb, cut_edges=e_rw, start=(rr[0].bb, 0))))
 
 
 # ------------------------------------------------------------------------------------ C06
@@ -2242,6 +2268,15 @@ def c13_rules(ctx):
     f = ctx.fn('Database::compact')
     if f is not None:
         ctx.no_direct(f, [TM + '::commit', TM + '::non_durable_commit', PA + '::free', TM + '::free'], 'compact() itself touches no page state')
+        # every compaction pass -- including the last one that makes no progress, whose probe
+        # allocation may have grown the file -- is followed by a drain-and-trim commit
+        cp_ = ctx.sites(f, WT + '::compact_pages', exact=1)
+        dr_ = ctx.sites(f, 'Database::drain_pending_free_pages', floor=2)
+        if cp_:
+            ctx.must_pass(f, dr_, start=cp_[0], what='every pass of compact_pages is followed by drain_pending_free_pages before compact() returns')
+        for p_ in dr_:
+            term = core.sym(f).operand(p_.call.t['a'][1])
+            ctx.check(term[0] == 'agg' and term[2] == 'Maximum', 'const|%s|shrink-policy' % f.path, 'the drain commits trim the file (ShrinkPolicy::Maximum)', f, p_.line)
     ctx.set_rule('C13.R3', 'relocation bookkeeping')
     for nm in ('UntypedBtreeMut::relocate_helper', 'multimap_btree::relocate_subtrees'):
         f = ctx.fn(nm)
